@@ -491,8 +491,12 @@ ZSTDMT_serialState_reset(serialState_t* serialState,
                          ZSTD_CCtx_params params,
                          size_t jobSize,
                          const void* dict, size_t const dictSize,
-                         ZSTD_dictContentType_e dictContentType)
+                         ZSTD_dictContentType_e dictContentType,
+                         ZSTD_customMem cMem)
 {
+    /* the allocator of the context owns the LDM tables (see ZSTDMT_serialState_free);
+     * the customMem field of the caller's parameters is not an allocator to use */
+    serialState->params.customMem = cMem;
     /* Adjust parameters */
     if (params.ldmParams.enableLdm == ZSTD_ps_enable) {
         DEBUGLOG(4, "LDM window size = %u KB", (1U << params.cParams.windowLog) >> 10);
@@ -507,7 +511,6 @@ ZSTDMT_serialState_reset(serialState_t* serialState,
     if (params.fParams.checksumFlag)
         XXH64_reset(&serialState->xxhState, 0);
     if (params.ldmParams.enableLdm == ZSTD_ps_enable) {
-        ZSTD_customMem cMem = params.customMem;
         unsigned const hashLog = params.ldmParams.hashLog;
         size_t const hashSize = ((size_t)1 << hashLog) * sizeof(ldmEntry_t);
         unsigned const bucketLog =
@@ -558,6 +561,7 @@ ZSTDMT_serialState_reset(serialState_t* serialState,
     }
 
     serialState->params = params;
+    serialState->params.customMem = cMem;
     serialState->params.jobSize = (U32)jobSize;
     return 0;
 }
@@ -1380,7 +1384,7 @@ size_t ZSTDMT_initCStream_internal(
     mtctx->consumed = 0;
     mtctx->produced = 0;
     if (ZSTDMT_serialState_reset(&mtctx->serial, mtctx->seqPool, params, mtctx->targetSectionSize,
-                                 dict, dictSize, dictContentType))
+                                 dict, dictSize, dictContentType, mtctx->cMem))
         return ERROR(memory_allocation);
     return 0;
 }
